@@ -358,10 +358,9 @@ Variable ss0 : symbol_sel.
 Hypothesis ss0_good : ss_good ss0.
 Hypothesis ss0_fresh : ss_cursor ss0 = None.
 (* what totality needs on top of the invariant's hypotheses: a well-formed dictionary has no empty phrase
-   and frequencies that fit (the engine adds them up in 32 bits); the conversion tiles the buffer (C03);
+   (its frequencies are any numbers: the engine's and the estimate's additions saturate); the conversion tiles the buffer (C03);
    key events are the ones the C API builds: a printable ASCII character or U+FFFD, Space carries ' ' *)
 Hypothesis ok_text : forall d f k p, dict_ok d -> In p (do_lookup dops d f k) -> fst p <> [].
-Hypothesis ok_freq : forall d f k p, dict_ok d -> In p (do_lookup dops d f k) -> (snd p < 4000000000)%N.
 Hypothesis conv_tiles : forall d k c n, dict_ok d -> wf_comp c -> contiguous 0 (clen c) (conv d k c n) = true.
 Definition event_ok (ev : keyevent) : Prop :=
   (kcode ev = kc_Space -> full_width_symbol_input (kunicode ev) <> None) /\
@@ -384,13 +383,11 @@ Proof.
   apply fine_bind; [apply fine_with_com, fine_ce_insert, W | intros; exact I].
 Qed.
 
-Lemma max_freq_of_spec l : forall acc, (acc <= max_freq_of l acc)%N /\ (forall q, In q l -> (snd q <= max_freq_of l acc)%N) /\
-  ((forall q, In q l -> (snd q < 4000000000)%N) -> (acc < 4000000000)%N -> (max_freq_of l acc < 4000000000)%N).
+Lemma max_freq_of_spec l : forall acc, (acc <= max_freq_of l acc)%N /\ (forall q, In q l -> (snd q <= max_freq_of l acc)%N).
 Proof.
-  induction l as [|x l IH]; intros acc; cbn [max_freq_of]; [repeat split; try lia; intros q []|].
-  destruct (IH (N.max acc (snd x))) as (I1 & I2 & I3). repeat split; [lia | |].
-  - intros q [<-|Hq]; [lia | now apply I2].
-  - intros Hq Ha. apply I3; [intros q Hin; apply Hq; now right|]. specialize (Hq x (or_introl eq_refl)). lia.
+  induction l as [|x l IH]; intros acc; cbn [max_freq_of]; [split; [lia | intros q []]|].
+  destruct (IH (N.max acc (snd x))) as (I1 & I2). split; [lia|].
+  intros q [<-|Hq]; [lia | now apply I2].
 Qed.
 
 Lemma fine_learn_phrase (s : shared') k t : SInv s -> fine (learn_phrase dops s k t).
@@ -400,11 +397,10 @@ Proof.
   - destruct (do_add dops (dict s) k t 1%N). exact I.
   - apply fine_bind; [|intros; exact I].
     set (pf := match find (fun q => text_eqb (fst q) t) (p :: ps) with Some q => snd q | None => 0%N end).
-    destruct (max_freq_of_spec (p :: ps) 0%N) as (_ & M2 & M3).
-    assert (Hb : forall q, In q (p :: ps) -> (snd q < 4000000000)%N) by (intros q Hq; eapply ok_freq; [exact Dk | rewrite El; exact Hq]).
+    destruct (max_freq_of_spec (p :: ps) 0%N) as (_ & M2).
     assert (Hpf : (pf <= max_freq_of (p :: ps) 0)%N).
     { subst pf. destruct (find (fun q => text_eqb (fst q) t) (p :: ps)) as [q|] eqn:Ef; [apply find_some in Ef as [Hin _]; now apply M2 | lia]. }
-    destruct (estimate_never_panics pf (max_freq_of (p :: ps) 0) Hpf) as (u & ->); [specialize (M3 Hb ltac:(lia)); lia | exact I].
+    destruct (estimate_never_panics pf (max_freq_of (p :: ps) 0) Hpf) as (u & ->). exact I.
 Qed.
 
 Lemma fine_auto_learn_go syms : forall ivs (s : shared') pending psyl, SInv s ->
